@@ -23,12 +23,107 @@ def gen_cases(sch, tier, rng):
         h["ops"] = ops
         cases.append(p_hist.mk_case(sch, "h%d" % i, h, "empty-structures" if i % 3 == 0 else "random"))
     return cases
+# ---- blocks the application builds directly (public add_* interface of CdnsBlock + CdnsExporter::write_block(block)) ----
+class DirectBlock:
+    """Python mirror of the nine de-duplicating tables, only to hand out the indices the real calls will return (caller duty:
+    stored indices come from that block's own add_* calls)"""
+    def __init__(self): self.t = {k: [] for k in ("ip", "ct", "nr", "sig", "qlist", "qrr", "rrlist", "rr", "mmd")}; self.lines = []
+    def add(self, tab, val, text):
+        l = self.t[tab]
+        if val in l: ix = l.index(val)
+        else: l.append(val); ix = len(l) - 1
+        self.lines.append("B %s b %s" % (tab, text)); return ix
+def gen_direct(sch, rng, i):
+    tps = 1000
+    bp = histgen.gen_bp(sch, rng, masks=(histgen.ALL_QR_BITS, histgen.ALL_SIG_BITS, 3, 3), tps=tps, maxi=10000)
+    pre = [1, 0, None, [bp]]
+    d = DirectBlock()
+    opt = lambda f: f() if rng.random() < 0.6 else None
+    def ip(): v = bytes(rng.getrandbits(8) for _ in range(rng.choice([4, 16]))); return d.add("ip", v, v.hex())
+    def nr(): v = rng.choice([b"\x03www\x07example\x03com\x00", b"\x00", bytes(rng.getrandbits(8) for _ in range(rng.choice([1, 5, 40])))]); return d.add("nr", v, v.hex())
+    def ct(): v = [rng.choice([1, 28, 255, 65535]), rng.choice([1, 3, 255])]; return d.add("ct", v, schema.show(sch["ClassType"], v))
+    U = lambda bits: rng.choice([0, 1, 23, 24, 255, 256, 65535, 65536, 2 ** 32 - 1]) % (2 ** bits)
+    def sig():
+        v = [opt(ip), opt(lambda: U(16)), opt(lambda: U(8)), opt(lambda: U(8)), opt(lambda: U(8)), opt(lambda: U(8)), opt(lambda: U(16)), opt(lambda: U(16)),
+             opt(ct), opt(lambda: U(16)), opt(lambda: U(16)), opt(lambda: U(16)), opt(lambda: U(16)), opt(lambda: U(8)), opt(lambda: U(16)), opt(nr), opt(lambda: U(16))]
+        return d.add("sig", v, schema.show(sch["QueryResponseSignature"], v))
+    def qrr(): v = [nr(), ct()]; return d.add("qrr", v, schema.show(sch["Question"], v))
+    def rr(): v = [nr(), ct(), opt(lambda: U(32)), opt(nr)]; return d.add("rr", v, schema.show(sch["RR"], v))
+    def qlist(n=None):
+        v = [qrr() for _ in range(rng.choice([0, 1, 2]) if n is None else n)]; return d.add("qlist", v, "L[ " + "".join("N%d " % x for x in v) + "]")
+    def rrlist(n=None):
+        v = [rr() for _ in range(rng.choice([0, 1, 3]) if n is None else n)]; return d.add("rrlist", v, "L[ " + "".join("N%d " % x for x in v) + "]")
+    def mmd():
+        v = [opt(ip), opt(lambda: U(16)), opt(lambda: U(8)), opt(lambda: bytes(rng.getrandbits(8) for _ in range(rng.choice([0, 3, 30]))))]
+        return d.add("mmd", v, schema.show(sch["MalformedMessageData"], v))
+    def time(): return "L[ N%d N%d ]" % (rng.choice([0, 5, 1600000000]), rng.randrange(tps))
+    def ext(kind):
+        # the shapes the seed C02-2 needs among them: an EMPTY rr list with no rr at all; rr entries without any rr list
+        if kind == "empty-rrlist": return [None, rrlist(0), None, None]
+        return [opt(qlist), opt(rrlist), opt(rrlist), opt(rrlist)]
+    kind = ["random", "empty-rrlist", "rr-without-list", "qlist-only", "scalars-only", "random"][i % 6]
+    nitems = rng.choice([1, 2, 4])
+    for _ in range(nitems):
+        if kind == "rr-without-list": rr()
+        q = [None] * 16
+        if kind != "scalars-only":
+            q[1] = opt(ip); q[4] = opt(sig); q[7] = opt(nr)
+            if rng.random() < 0.5: q[10] = [opt(nr), opt(lambda: U(8))]
+            if kind in ("random", "empty-rrlist"): q[11] = ext(kind); q[12] = ext("random") if rng.random() < 0.5 else None
+            if kind == "qlist-only": q[11] = [qlist(rng.choice([0, 1, 2])), None, None, None]
+        q[2] = opt(lambda: U(16)); q[3] = U(16); q[5] = opt(lambda: U(8)); q[6] = opt(lambda: rng.choice([-5, 0, 7, 2 ** 40]))
+        q[8] = opt(lambda: U(64 if False else 32)); q[9] = opt(lambda: U(32))
+        q[13] = opt(lambda: bytes(rng.choice(b"AS0123456789") for _ in range(5))); q[15] = opt(lambda: rng.choice([-1, 0, 99]))
+        body = schema.show(sch["QueryResponse"], [None] + q[1:])
+        t = time() if rng.random() < 0.7 else "_"
+        d.lines.append("B qritem b %s R[ %s %s" % (schema.show(histgen.STATS, histgen.gen_stats(rng)), t, body[len("R[ _ "):]))
+    for _ in range(rng.choice([0, 1, 2])):
+        m = [None, opt(ip), opt(lambda: U(16)), opt(mmd)]
+        body = schema.show(sch["MalformedMessage"], m)
+        d.lines.append("B mmitem b _ R[ %s %s" % (time() if rng.random() < 0.7 else "_", body[len("R[ _ "):]))
+    for _ in range(rng.choice([0, 1, 3])):
+        d.lines.append("B aecitem b _ R[ N%d %s N%d %s ]" % (rng.choice([0, 1, 5]), rng.choice(["_", "N3"]), ip(), rng.choice(["_", "N2"])))
+    script = ["B new b " + schema.show(sch["BlockParameters"], bp)] + d.lines + ["B dump b", "X new " + schema.show(sch["FilePreamble"], pre), "X wbx b", "X end", "F out 0"]
+    return {"id": "direct%d" % i, "script": script, "expect": None, "pre": pre, "meta": {"kind": "direct-block/" + kind}}
+
+def check_direct(sch, c, il):
+    """the block bytes (B dump) wrapped into a file, and the file write_block(block) produced, must each be exactly one well-formed,
+    schema-valid document whose indices address existing table entries (the caller kept its duty)"""
+    import refcbor
+    why = []
+    dumps = [l for l in il if l.startswith("out ")]
+    if len(dumps) < 2: return [("C02", "driver output incomplete: %r" % il[-3:])]
+    blk = bytes.fromhex(dumps[0][4:]) if dumps[0][4:] != "-" else b""
+    wrapped = b"\x83\x65C-DNS" + schema.enc(sch["FilePreamble"], c["pre"]) + b"\x9f" + blk + b"\xff"
+    for what, data in (("the bytes CdnsBlock::write produced for a directly built block", wrapped),
+                       ("the output of write_block(block) for a directly built block", bytes.fromhex(dumps[1][4:]) if dumps[1][4:] != "-" else b"")):
+        if not data: continue
+        try: histgen.read_output(sch, data)
+        except (refcbor.Malformed, schema.Nonconforming) as e:
+            why.append(("C02", "%s are not one well-formed schema-valid document: %s" % (what, e))); break
+    if any(l.startswith("throw") for l in il): why.append(("C02", "the library's reader fails on the file written from a directly built block: %s" % [l for l in il if l.startswith("throw")][0]))
+    return why
+
 def run(ctx):
     sch = schema.load(ctx["mdl"])
     cases = gen_cases(sch, ctx["tier"], ctx["rng"])
     diffs, cases = p_hist.run_histories(ctx, cases, batch=10)
+    # directly built blocks
+    dcases = [gen_direct(sch, ctx["rng"], i) for i in range(60 if ctx["tier"] == "quick" else 3000)]
+    impl, model, _ = common.run_both([(c["id"], c["script"]) for c in dcases], ctx["impl"]["drv"], ctx["mdl"], batch=20)
+    for c in dcases:
+        il, ml = impl.get(c["id"], ["<missing>"]), model.get(c["id"], ["<missing>"])
+        c["oracle"] = check_direct(sch, c, il)
+        if any(l.startswith("CRASH") for l in il): c["oracle"].append(("C03", "implementation crashed: " + [l for l in il if l.startswith("CRASH")][0][:200]))
+        a, b = histgen.canon_lines(il), histgen.canon_lines(ml)
+        if a != b:
+            k = next((j for j in range(min(len(a), len(b))) if a[j] != b[j]), min(len(a), len(b)))
+            diffs.append((c["id"], c, "result %d (%s): impl %s vs model %s" % (k, (c["script"][k] if k < len(c["script"]) else "?")[:50], (a[k] if k < len(a) else "<none>")[:100], (b[k] if k < len(b) else "<none>")[:100])))
+    cases = cases + dcases
     return p_hist.finish(ctx, "C02", cases, diffs,
         "random exporter histories incl. present-but-empty BlockStatistics and CollectionParameters, records that store nothing, rotations and "
         "destruction. Every closed output must be empty (no block written) or pass a strict independent parse: exactly one CBOR item, no "
         "trailing byte, 3-element file array with the C-DNS id, definite lengths equal to members present, mandatory members, every index in "
-        "range of its table", related=("C13",))
+        "range of its table; plus blocks the application builds directly through the public add_* interface of CdnsBlock (tables deliberately out of step: an "
+        "empty RR list with no RR, RRs without any list, question lists only, scalar-only items) serialised with CdnsBlock::write and written with "
+        "CdnsExporter::write_block(block): same strict parse, compared with the model's bytes", related=("C13",))
